@@ -55,6 +55,9 @@ inductive Impl (K : Type) where
   | realpart (n : Nat)                                  -- RealPart(cn(n))
   | imagpart (n : Nat)                                  -- ImagPart(cn(n))
   | cembed (n : Nat) (a b : K)                          -- ComplexEmbedding(rn(n), scalar = a + b i)
+  -- complex scalars `a + b i` as the real 2×2 block `[[a, nb], [b, a]]` on `[re, im]`, `nb = -b`
+  | clscal (n : Nat) (op : Impl K) (a b nb : K)         -- OperatorLeftScalarMult(op, a + b i), op.range = cn(n)
+  | crscal (n : Nat) (op : Impl K) (a b nb : K)         -- OperatorRightScalarMult(op, a + b i), op.domain = cn(n)
 
 section
 variable {K : Type} [Add K] [Mul K] [OfNat K 0] [OfNat K 1]
@@ -68,6 +71,10 @@ def pw (x : K) : Nat → K
 def natK : Nat → K
   | 0 => 0
   | p + 1 => natK p + 1
+
+/-- `(a + b i) · x` for `x ∈ cn(n)` in the flat layout `[re, im]` (`nb = -b`). -/
+def cmulV (n : Nat) (a b nb : K) (x : Nat → K) : Nat → K :=
+  fun k => if k < n then a * x k + nb * x (n + k) else b * x (k - n) + a * x k
 
 /-- `Σ_{j<n} f j`. -/
 def sumTo (n : Nat) (f : Nat → K) : K :=
@@ -89,6 +96,7 @@ def dom : Impl K → Nat
   | psnil n _ => n | pscons _ _ _ rest => rest.dom
   | cmodsq n => n + n | cmodsqd n _ => n + n | realpart n => n + n | imagpart n => n + n
   | cembed n _ _ => n
+  | clscal _ op _ _ _ => op.dom | crscal _ op _ _ _ => op.dom
 
 /-- Dimension of the range; a field (`RealNumbers()`) counts as dimension 1. -/
 def ran : Impl K → Nat
@@ -103,6 +111,7 @@ def ran : Impl K → Nat
   | psnil _ m => m | pscons _ _ _ rest => rest.ran
   | cmodsq n => n | cmodsqd n _ => n | realpart n => n | imagpart n => n
   | cembed n _ _ => n + n
+  | clscal _ op _ _ _ => op.ran | crscal _ op _ _ _ => op.ran
 
 /-- `isinstance(op.range, Field)` — the operator is a functional. -/
 def ranField : Impl K → Bool
@@ -110,6 +119,7 @@ def ranField : Impl K → Bool
   | sum l _ _ _ => l.ranField | comp l _ _ => l.ranField
   | lscal op _ => op.ranField | rscal op _ => op.ranField | rvec op _ => op.ranField
   | pprod l _ => l.ranField
+  | crscal _ op _ _ _ => op.ranField
   | _ => false
 
 /-- `op(x)`. -/
@@ -147,6 +157,8 @@ def run : Impl K → Vec K → Vec K
   | realpart _, x => x
   | imagpart n, x => fun k => x (n + k)
   | cembed n a b, x => fun k => if k < n then a * x k else b * x (k - n)
+  | clscal n op a b nb, x => cmulV n a b nb (op.run x)
+  | crscal n op a b nb, x => op.run (cmulV n a b nb x)
 
 end Impl
 end
@@ -179,6 +191,7 @@ def isLinear : Impl K → Bool
   | psnil _ _ => true | pscons _ _ op rest => op.isLinear && rest.isLinear
   | cmodsq _ => false | cmodsqd _ _ => true | realpart _ => true | imagpart _ => true
   | cembed _ _ _ => true
+  | clscal _ op _ _ _ => op.isLinear | crscal _ op _ _ _ => op.isLinear
 
 /-- A temporary, if given, must lie in the stated space. -/
 def tmpOk (t : Option Nat) (n : Nat) : Bool :=
@@ -213,6 +226,8 @@ def wf : Impl K → Bool
       decide (ro + op.ran ≤ rest.ran) && decide (co + op.dom ≤ rest.dom)
   | cmodsq _ => true | cmodsqd _ _ => true | realpart _ => true | imagpart _ => true
   | cembed _ _ _ => true
+  | clscal n op _ _ _ => op.wf && (op.ran == n + n) && !op.ranField
+  | crscal n op _ _ _ => op.wf && (op.dom == n + n)
 
 /-- The domain is a complex space (flat `[re, im]` layout). -/
 def domC : Impl K → Bool
@@ -220,6 +235,7 @@ def domC : Impl K → Bool
   | sum l _ _ _ => l.domC | vecsum op _ => op.domC | comp _ r _ => r.domC
   | lscal op _ => op.domC | rscal op _ => op.domC | lvec op _ => op.domC | rvec op _ => op.domC
   | pprod l _ => l.domC | flvec f _ _ => f.domC
+  | clscal _ op _ _ _ => op.domC | crscal _ _ _ _ _ => true
   | _ => false
 
 /-- The range is a complex space. -/
@@ -228,11 +244,12 @@ def ranC : Impl K → Bool
   | sum l _ _ _ => l.ranC | vecsum op _ => op.ranC | comp l _ _ => l.ranC
   | lscal op _ => op.ranC | rscal op _ => op.ranC | lvec op _ => op.ranC | rvec op _ => op.ranC
   | pprod l _ => l.ranC
+  | clscal _ _ _ _ _ => true | crscal _ op _ _ _ => op.ranC
   | _ => false
 
 /-- Faithfulness of the flat real reading of complex spaces: real and complex spaces are not
-mixed up, and nothing is multiplied point-wise by a complex vector or value (the model has real
-scalars and flat point-wise products only).  Not needed by the theorems (they hold for the flat
+mixed up, nothing is multiplied point-wise by a complex vector or value (flat point-wise
+products only), and a complex scalar `(a, b, nb)` has `nb = -b` and meets a complex space.  Not needed by the theorems (they hold for the flat
 semantics of every `wf` tree); required by the driver, so that only trees whose real-code
 counterpart means the same are compared. -/
 def cwf : Impl K → Bool
@@ -248,6 +265,8 @@ def cwf : Impl K → Bool
   | rcons op rest => op.cwf && rest.cwf && !op.ranC && !op.domC
   | dcons op rest => op.cwf && rest.cwf && !op.ranC && !op.domC
   | pscons _ _ op rest => op.cwf && rest.cwf && !op.ranC && !op.domC
+  | clscal _ op _ b nb => op.cwf && op.ranC && decide (b + nb = 0)
+  | crscal _ op _ b nb => op.cwf && op.domC && decide (b + nb = 0)
   | _ => true
 
 /-- `OperatorSum.__init__`. -/
@@ -267,6 +286,13 @@ def mkLscal (op : Impl K) (s : K) : Impl K :=
   match op with
   | lscal op' s' => lscal op' (s * s')
   | _ => lscal op s
+
+/-- `OperatorRightScalarMult(op, scalar)`, whose `__init__` merges a nested right scalar
+multiplication: `scalar = scalar * op.scalar; op = op.operator`. -/
+def mkRscal (op : Impl K) (s : K) : Impl K :=
+  match op with
+  | rscal op' s' => rscal op' (s * s')
+  | _ => rscal op s
 
 /-- `value * op` where `value = g(x)` is the value of an operator `g` with the same range as
 `op`: an element of the range gives `OperatorLeftVectorMult`, a float (functionals) gives
@@ -306,10 +332,10 @@ def deriv : Impl K → Vec K → Option (Impl K)
       else match op.deriv x with
         | some o' => some (mkLscal o' s)
         | none => none
-  -- no `is_linear` short cut in `OperatorRightScalarMult.derivative`
+  -- `OperatorRightScalarMult(op.derivative(s * x), s)`, no `is_linear` short cut
   | rscal op s, x =>
       match op.deriv (fun k => s * x k) with
-      | some o' => some (mkLscal o' s)
+      | some o' => some (mkRscal o' s)
       | none => none
   | lvec op v, x =>
       if op.isLinear then some (lvec op v)
@@ -363,6 +389,17 @@ def deriv : Impl K → Vec K → Option (Impl K)
   | realpart n, _ => some (realpart n)
   | imagpart n, _ => some (imagpart n)
   | cembed n a b, _ => some (cembed n a b)
+  -- complex scalars (the merging of nested scalar multiplications, semantically neutral, is not
+  -- modelled for them)
+  | clscal n op a b nb, x =>
+      if op.isLinear then some (clscal n op a b nb)
+      else match op.deriv x with
+        | some o' => some (clscal n o' a b nb)
+        | none => none
+  | crscal n op a b nb, x =>
+      match op.deriv (cmulV n a b nb x) with
+      | some o' => some (crscal n o' a b nb)
+      | none => none
 
 end Impl
 end
